@@ -56,7 +56,7 @@ def gen_files(rng, name, tier):
             spec.update(T.DISP_BAND)
             spec["foff"] = -10.0 * 16 / nchans  # keep the band (hence the sweep) the same width
         return spec
-    nbits = rng.choice([1, 2, 4, 8, 8, 32, 32])
+    nbits = rng.choice([1, 2, 4, 8, 8, 32, 32])  # the quantifier: depths {1,2,4,8,32} (16-bit blocks are refused by the compiled kernels)
     chans = [c for c in (1, 2, 4, 6, 7, 8, 12, 14, 16) if (c * nbits) % 8 == 0]
     if T.needs_disp_band(name):
         chans = [c for c in chans if c > 1]  # a 1-channel band has no dispersion sweep (delays squeeze to 0-d)
@@ -66,7 +66,9 @@ def gen_files(rng, name, tier):
     counts = [rng.choice([1, 2, rng.randint(1, mx // nfiles), rng.randint(1, mx // nfiles)]) for _ in range(nfiles)]
     spec = {"nbits": nbits, "nchans": nchans, "nsamps": counts, "pad": filgen.gen_pads(rng, len(counts), 5),
             "vseed": rng.randrange(1 << 16), "mode": T.data_mode_rng(name, nbits, rng)}
-    if name == "downsample" and rng.random() < 0.3:
+    if name == "downsample" and nbits in (8, 16) and rng.random() < 0.25:
+        spec["mode"] = "bits"  # the whole range of the sample type: block means still fit
+    elif name == "downsample" and rng.random() < 0.3:
         spec["mode"] = "flat"  # exact-integer block means: the reduced value is then fixed by ANY rounding rule
         if rng.random() < 0.5:
             spec["nsamps"] = [rng.randint(49, 120)]
